@@ -166,8 +166,8 @@ def record_one(task):
     p = rng.choice(pos)
     name = rng.choice(NAMES)
     arr = rng.choice(ARRS)
-    if arr == "mixed" and ("disallow" if d == 3 else "not") in T:
-        arr = "local"
+    if arr == "mixed" and (("disallow" if d == 3 else "not") in T or not p):
+        arr = "local"        # (at the root the guard would be a sibling of $ref, which is ignored)
     S, store = build(d, T, list(p), name, arr)
     if arr == "mixed":      # the inlining of the guarded schema carries the guard too
         guard = {"disallow": [{"type": "null"}]} if d == 3 else {"not": {"type": "null"}}
